@@ -28,12 +28,13 @@ fn opt_pairs<T>(f: &FloatFmt<T>, thorough: bool) -> Vec<OptPair> {
     // valid punctuation for this format: not a digit, not the separator / prefix / suffix byte
     let ok = |c: u8| !is_digit(c, big) && c != f.sep && !(f.prefix != 0 && c == f.prefix) && !(f.suffix != 0 && c == f.suffix);
     let mut points: Vec<u8> = vec![b'.', b',', b';', b' '];
-    let mut exps: Vec<u8> = vec![b'e', b'^', b'p', b'P', b'E', b'\t'];
+    let mut exps: Vec<u8> = vec![b'e', b'E', b'^', b'P', b'p', b'\t'];
     points.retain(|&c| ok(c));
     exps.retain(|&c| ok(c));
     if !thorough {
         points.truncate(2);
-        exps.truncate(2);
+        // a lower-case letter, an upper-case letter and a non-letter wherever the radix leaves them
+        exps.truncate(3);
     }
     let specials: Vec<(Option<&'static [u8]>, Option<&'static [u8]>, Option<&'static [u8]>)> = vec![
         (Some(b"NaN"), Some(b"inf"), Some(b"infinity")),
